@@ -15,7 +15,7 @@ from aomon.probes import ScriptedGenerator, RecordingGenerator
 LEVEL = "exploration"
 TECHNIQUE = "state probing of the live object through add_row() with a scripted Generator (effective A, B observed), second-order identities vs float64 reference covariance; trace conformance with a recording Generator; numba bounds-check / no-JIT differential"
 LEVEL_TEXT = ("For both variants, sizes 5..33 (quick) / ..70 (thorough) incl. sizes that are not 2^n+1, 1-5 stencil columns / length "
-              "factors, pixel scale / L0 from 1e-4 to 0.3 and r0 0.05-1, the effective maps A and B are *observed* (every pixel of the "
+              "factors, pixel scale / L0 from 5e-6 to 0.3, r0 from 0.05 m to 3e7 pixels, integer-typed pixel scales and the same geometry in other length units, the effective maps A and B are *observed* (every pixel of the "
               "working screen as a unit impulse, every innovation as a unit draw) and must satisfy A Czz = Cxz and A Czz A^T + B B^T = Cxx "
               "for the theoretical covariance at the true pixel separations, in a structure-function metric that exposes 1 % geometry "
               "errors; linearity, zero offset, the Fried constant-shift law, and conformance of naturally generated rows to the observed "
